@@ -1171,9 +1171,17 @@ func verifyGitObjectAndAttestations(ctx context.Context, policy *State, target s
 			// explicitly not looking at the attestation
 			// that applies to the _push_
 			// thus, we also set threshold to 1
-			verifier.threshold = 1
+			// The verifier is shared via the policy state's verifiers cache,
+			// so we use a copy rather than lowering its threshold in place.
+			tagVerifier := &SignatureVerifier{
+				repository:         verifier.repository,
+				name:               verifier.name,
+				principals:         verifier.principals,
+				threshold:          1,
+				verifyExhaustively: verifier.verifyExhaustively,
+			}
 
-			_, err := verifier.Verify(ctx, options.tagObjectID, nil)
+			_, err := tagVerifier.Verify(ctx, options.tagObjectID, nil)
 			if err == nil {
 				// Signature verification succeeded
 				tagObjVerified = true
